@@ -209,6 +209,12 @@ def full_jobs(ctx, n, extra=None, **kw):
         dy = rng.choice([0, 1])
         kc = {"vars": vars_, "pairs": pairs, "tr": tr, "rr": [tr[0] + dy, tr[1] + dy, tr[2] + 1, tr[3] + 1],
               "ff": rng.choice(["abs", "sq"]), "rows": rows, "cols": cols}
+        if k % 4 == 1:
+            # declared scalar weights that are not integers (0.5, 2.5, 1.5: kcfg holds them as w / wdiv) on
+            # targets stored as integer images
+            for p, pr in enumerate(pairs):
+                pr["w"] = [[(1, 5, 3)[p % 3]] * cols for _ in range(rows)]
+            kc.update({"wdiv": 2, "scalar_w": True, "int_targets": True})
         job = {"kcfg": kc, "variant": k, "algo": algos[k % 3], "islands": rng.randint(1, 3), "evolutions": 2,
                "best": rng.choice([2, 3]), "pygmo_seed": rng.randint(1, 999), "topology": rng.choice(["unconnected", "ring", "fully_connected"])}
         job.update(kw)
@@ -336,6 +342,12 @@ def check_parallel(ctx):
     ctx.cov["replayed_cases"] += len(traces)
     for k in range(0, len(traces), 5):
         ref = traces[k]
+        for t in traces[k:k + 5]:
+            if t["meta"].get("simulated") not in (None, "ok"):
+                ctx.violation("calib.parallel.simulated", f"simulated data returned by the calibration under scheduler "
+                              f"{t['case']['job'].get('scheduler')}/{t['case']['job'].get('workers')} (model delays "
+                              f"{t['case']['job'].get('extra')}): {t['meta']['simulated']}", t["case"],
+                              {"scheduler": t["case"]["job"].get("scheduler")})
         for t in traces[k + 1:k + 5]:
             if _digest(t["meta"]) != _digest(ref["meta"]):
                 ctx.violation("calib.parallel", f"calibration with fixed seeds gives champions {t['meta'].get('champions')} "
